@@ -82,4 +82,11 @@ theorem helper_closure_covers :
     ["complex_multiplication", "complex_division", "safe_divide", "conjugate", "modulus", "complex_dot_product", "complex_mm",
      "complex_bmm", "root_sum_of_squares", "reduce_operator", "expand_operator"].all (helper_closure.contains ·) = true := by decide
 
+/-- the functions reachable from the C02 operators are **size-uniform**: no `if` / conditional / `while` test on a shape,
+size, numel, len or ndim, no loop, no call that cuts a tensor into pieces (narrow / split / chunk / unbind / select …) —
+one formula for every shape, which is what `Lemmas/C02Tensor.expandOp_spec` / `reduceOp_spec` (∀ `c`, `pre`, `post`)
+describe; a coil-count threshold or a chunked accumulation is a different algorithm per size class
+(`Props/C02.grouped_reduce_drops_tail`) -/
+theorem helper_size_branches_none : helper_size_branches = [] := by decide
+
 end DirectVerif.Bridge.C02
